@@ -103,8 +103,9 @@ Proof.
   simpl in Hn. destruct Hn as [<-|[<-|[<-|[<-|[]]]]]; cbn [rot_list skipn firstn app map side_term_l].
   - reflexivity.
   - apply side_term_shift.
-  - rewrite !side_term_shift. reflexivity.
-  - rewrite !side_term_shift. reflexivity.
+  - rewrite (side_term_shift k center other (P b) (P c) (P d) (P a)). apply side_term_shift.
+  - rewrite (side_term_shift k center other (P c) (P d) (P a) (P b)).
+    rewrite (side_term_shift k center other (P b) (P c) (P d) (P a)). apply side_term_shift.
 Qed.
 
 (** ** edges *)
@@ -140,8 +141,13 @@ Theorem hexq_renumber k T E p P nb :
   hexq k T E (renum P p) (renum_nb T nb p) = hexq k T E P nb.
 Proof.
   unfold renum_ok. intros H.
-  repeat (apply andb_true_iff in H; let H' := fresh "H" in destruct H as [H H']).
-  rename H into Hperm, H6 into Hlen, H5 into Hsides, H4 into Hnd, H3 into Hvalid, H2 into HndE, H1 into HndE', H0 into Hsame.
+  apply andb_true_iff in H; destruct H as [H Hsame].
+  apply andb_true_iff in H; destruct H as [H HndE'].
+  apply andb_true_iff in H; destruct H as [H HndE].
+  apply andb_true_iff in H; destruct H as [H Hvalid].
+  apply andb_true_iff in H; destruct H as [H Hnd].
+  apply andb_true_iff in H; destruct H as [H Hsides].
+  apply andb_true_iff in H; destruct H as [Hperm Hlen].
   unfold is_perm8 in Hperm. apply andb_true_iff in Hperm. destruct Hperm as [Hperm Hpv].
   apply andb_true_iff in Hperm. destruct Hperm as [Hpl Hpnd]. apply Nat.eqb_eq in Hpl.
   (* centre *)
@@ -149,8 +155,7 @@ Proof.
   { unfold centre8. f_equal. unfold renum.
     rewrite <- (map_map (papply p) P). unfold papply.
     replace 8%nat with (length p) at 1 by assumption. rewrite map_nth_seq.
-    apply vsum_perm. apply Permutation_map. apply c14_perm_seq; auto.
-    rewrite forallb_forall in Hpv |- *. intros x Hx. specialize (Hpv x Hx). exact Hpv. }
+    apply vsum_perm. apply Permutation_map. apply c14_perm_seq; auto. }
   unfold hexq. rewrite Hc. f_equal.
   - (* sides *)
     set (term := fun j => side_term_l k (centre8 P) (nb j) (map P (nth j T []))).
@@ -184,3 +189,91 @@ Proof.
       rewrite E1, E2. apply Permutation_map. apply c14_perm_check; assumption. }
     unfold aspect. rewrite (lmax_perm _ _ HP), (lmin_perm _ _ HP). reflexivity.
 Qed.
+
+(** ** quadrilateral: cyclic renumbering *)
+Definition edges_ok (E : list (nat * nat)) (p : perm) : bool :=
+  forallb valid p && forallb (fun e => valid (fst e) && valid (snd e)) E
+  && nodupb (map pcode E) && nodupb (map pcode (map (pmap p) E))
+  && same_set (map pcode (map (pmap p) E)) (map pcode E).
+
+Lemma aspect_renumber k E p P :
+  edges_ok E p = true -> aspect k (map (edge_len (renum P p)) E) = aspect k (map (edge_len P) E).
+Proof.
+  unfold edges_ok. intros H.
+  apply andb_true_iff in H; destruct H as [H Hsame].
+  apply andb_true_iff in H; destruct H as [H HndE'].
+  apply andb_true_iff in H; destruct H as [H HndE].
+  apply andb_true_iff in H; destruct H as [Hpv Hvalid].
+  assert (HP : Permutation (map (edge_len (renum P p)) E) (map (edge_len P) E)).
+  { assert (E1 : map (edge_len (renum P p)) E = map (fun c => edge_len P (pdecode c)) (map pcode (map (pmap p) E))).
+    { rewrite !map_map. apply map_ext_in. intros [a b] Hab.
+      change (edge_len (renum P p) (a, b)) with (edge_len P (pmap p (a, b))).
+      unfold pmap. simpl fst. simpl snd. apply edge_len_code.
+      - pose proof (papply_valid p a Hpv) as V. unfold valid in V. apply Nat.ltb_lt in V. exact V.
+      - pose proof (papply_valid p b Hpv) as V. unfold valid in V. apply Nat.ltb_lt in V. exact V. }
+    assert (E2 : map (edge_len P) E = map (fun c => edge_len P (pdecode c)) (map pcode E)).
+    { rewrite map_map. apply map_ext_in. intros [a b] Hab.
+      rewrite forallb_forall in Hvalid. specialize (Hvalid (a, b) Hab). simpl in Hvalid.
+      apply andb_true_iff in Hvalid. destruct Hvalid as [Va Vb]. unfold valid in Va, Vb.
+      apply Nat.ltb_lt in Va. apply Nat.ltb_lt in Vb. apply edge_len_code; assumption. }
+    rewrite E1, E2. apply Permutation_map. apply c14_perm_check; assumption. }
+  unfold aspect. rewrite (lmax_perm _ _ HP), (lmin_perm _ _ HP). reflexivity.
+Qed.
+
+Definition quad_shift : perm := [1; 2; 3; 0]%nat.
+
+Lemma quad_side_nscale k center other lam nrm prev a b :
+  0 < lam -> quad_side k center other (vscale lam nrm) prev a b = quad_side k center other nrm prev a b.
+Proof.
+  intros Hl. unfold quad_side.
+  replace (cross (vscale lam nrm) (vsub b a)) with (vscale lam (cross nrm (vsub b a))) by vec_ring.
+  unfold unit at 1 3. rewrite norm_scale_pos by lra. rewrite vscale_vscale.
+  replace (/ (lam * norm (cross nrm (vsub b a))) * lam) with (/ norm (cross nrm (vsub b a))).
+  - reflexivity.
+  - rewrite Rinv_mult. replace (/ lam * / norm (cross nrm (vsub b a)) * lam)
+      with (/ norm (cross nrm (vsub b a)) * (/ lam * lam)) by ring. rewrite Rinv_l by lra. ring.
+Qed.
+
+(** the corner normals of a planar convex quadrilateral are positive multiples of each other; under
+    that hypothesis (here for corners 0 and 1) the value is invariant under the cyclic renumbering
+    0->1->2->3->0, the generator of the four orientation-preserving renumberings *)
+Theorem quadq_renumber_shift k E P nb lam :
+  edges_ok E quad_shift = true -> 0 < lam ->
+  cross (vsub (P 2%nat) (P 1%nat)) (vsub (P 0%nat) (P 1%nat))
+    = vscale lam (cross (vsub (P 1%nat) (P 0%nat)) (vsub (P 3%nat) (P 0%nat))) ->
+  quadq k E (renum P quad_shift) (fun i => nb (papply quad_shift i)) = quadq k E P nb.
+Proof.
+  intros HE Hl Hn. unfold quadq. rewrite (aspect_renumber k E quad_shift P HE).
+  unfold renum, quad_shift, papply. cbn [nth].
+  rewrite Hn, c4_shift, !quad_side_nscale by assumption. ring.
+Qed.
+
+(** ** the value depends on the measured pairs only as a set of unordered pairs *)
+Definition edges_same (E E' : list (nat * nat)) : bool :=
+  forallb (fun e => valid (fst e) && valid (snd e)) E && forallb (fun e => valid (fst e) && valid (snd e)) E'
+  && nodupb (map pcode E) && nodupb (map pcode E') && same_set (map pcode E) (map pcode E').
+
+Lemma lens_code P E : forallb (fun e => valid (fst e) && valid (snd e)) E = true ->
+  map (edge_len P) E = map (fun c => edge_len P (pdecode c)) (map pcode E).
+Proof.
+  intros Hvalid. rewrite map_map. apply map_ext_in. intros [a b] Hab.
+  rewrite forallb_forall in Hvalid. specialize (Hvalid (a, b) Hab). simpl in Hvalid.
+  apply andb_true_iff in Hvalid. destruct Hvalid as [Va Vb]. unfold valid in Va, Vb.
+  apply Nat.ltb_lt in Va. apply Nat.ltb_lt in Vb. apply edge_len_code; assumption.
+Qed.
+
+Lemma aspect_same_edges k E E' P : edges_same E E' = true ->
+  aspect k (map (edge_len P) E) = aspect k (map (edge_len P) E').
+Proof.
+  unfold edges_same. intros H.
+  apply andb_true_iff in H; destruct H as [H Hsame].
+  apply andb_true_iff in H; destruct H as [H Hnd'].
+  apply andb_true_iff in H; destruct H as [H Hnd].
+  apply andb_true_iff in H; destruct H as [Hv Hv'].
+  assert (HP : Permutation (map (edge_len P) E) (map (edge_len P) E')).
+  { rewrite (lens_code P E Hv), (lens_code P E' Hv'). apply Permutation_map. apply c14_perm_check; assumption. }
+  unfold aspect. rewrite (lmax_perm _ _ HP), (lmin_perm _ _ HP). reflexivity.
+Qed.
+
+Lemma hexq_same_edges k T E E' P nb : edges_same E E' = true -> hexq k T E P nb = hexq k T E' P nb.
+Proof. intros H. unfold hexq. f_equal. apply aspect_same_edges. assumption. Qed.
